@@ -171,6 +171,18 @@ let () =
                (if List.exists (fun v -> v = Some VPanic) vs then "panic" else "sequence-differs-from-spec") in
            Printf.printf "%s%s | %s\n" echo m verdict
          end
+       | ["task"; _lg; stream] ->
+         (* the connection task answers the first message the way its head is classified: 200 from the handler, the
+            status of the documented error, or nothing (Disconnected: an empty stream) -- whatever logger is installed *)
+         let stream = bytes_of_tok stream in
+         let cap = nat_of_int 8192 in
+         let s = { in_bytes = stream; in_sched = []; in_err = false } in
+         let o = read_request_head url cap (nat_of_int 8194) { fb_rd = O; fb_data = [] } s in
+         let m = (match o with
+             | ROk _ -> "task 200"
+             | RErr (e, _, _) -> (match status_of e with Status c -> "task " ^ string_of_int (int_of_n c) | Drop -> "task none")
+             | RPanic -> "task panic" | ROutOfFuel -> "task outoffuel") in
+         Printf.printf "%s%s | %s\n" echo m (ok_or (String.concat " " otoks = m) "connection-task-answer")
        | ["status"; name] ->
          let m = (match status_of (http_error_of_name name) with
              | Status c -> "status " ^ string_of_int (int_of_n c) | Drop -> "drop") in
